@@ -45,7 +45,8 @@ Record wf (c : cat) : Prop := {
   wf_refs : Forall (refs_ok c) (pols c);
   wf_def : Forall (default_ok c) (dbs c);
   wf_ptv : Forall (fun e => Z.of_nat (length (snd e)) = ptnum c) (ptview c);
-  wf_nonneg : Forall (fun x => 0 <= x) [max_sg c; max_sh c; max_ig c; max_ix c; max_mst c; max_node c; ptnum c]
+  wf_nonneg : Forall (fun x => 0 <= x) [max_sg c; max_sh c; max_ig c; max_ix c; max_mst c; max_node c; ptnum c];
+  wf_dur : Forall (fun p => 0 < rp_sgdur p) (pols c)   (* shard-group durations are normalised to at least one hour *)
 }.
 
 (* ---- reflection ---- *)
@@ -187,7 +188,8 @@ Proof.
   rewrite (forallb_Forall _ (default_ok c)) by (intro; apply default_ok_b_iff).
   rewrite (forallb_Forall _ (fun e => Z.of_nat (length (snd e)) = ptnum c)) by (intro; apply Z.eqb_eq).
   rewrite (forallb_Forall _ (fun x => 0 <= x)) by (intro; lia).
+  rewrite (forallb_Forall _ (fun p => 0 < rp_sgdur p)) by (intro; lia).
   split.
   - intros H. decompose [and] H. constructor; assumption.
-  - intros [? ? ? ? ? ? ? ? ? ? ? ? ? ?]. tauto.
+  - intros [? ? ? ? ? ? ? ? ? ? ? ? ? ? ?]. tauto.
 Qed.
